@@ -200,3 +200,68 @@ func heapKeysOf(t types.Type) []string {
 func frameOtherRows(nh, h, ref string) string {
 	return fmt.Sprintf("(forall ((r Int)) (! (=> (not (= r %s)) (= (select %s r) (select %s r))) :pattern ((select %s r))))", ref, nh, h, nh)
 }
+
+// leafKeysForPath: the heap keys written when the field at `path` of an element of type t is assigned.
+func leafKeysForPath(t types.Type, path []int) []string {
+	ls, _ := leavesOf(t)
+	var ks []string
+	for _, l := range ls {
+		if len(l.path) < len(path) {
+			continue
+		}
+		ok := true
+		for i := range path {
+			if l.path[i] != path[i] {
+				ok = false
+				break
+			}
+		}
+		if ok {
+			ks = append(ks, l.key)
+		}
+	}
+	return ks
+}
+
+// heapStorePath writes only the leaves below `path` of element idx of row ref.
+func (fc *funcCtx) heapStorePath(st *State, t types.Type, ref, idx string, path []int, v Value) {
+	put := func(key, term string) {
+		h := fc.heap(st, key)
+		st.heaps[key] = app("store", h, ref, app("store", app("select", h, ref), idx, term))
+	}
+	ls, _ := leavesOf(t)
+	for i := 0; i < len(ls); i++ {
+		l := ls[i]
+		if len(l.path) < len(path) {
+			continue
+		}
+		match := true
+		for j := range path {
+			if l.path[j] != path[j] {
+				match = false
+				break
+			}
+		}
+		if !match {
+			continue
+		}
+		x := getPath(v, l.path[len(path):])
+		if l.sub == "" {
+			sc, ok := x.(Sc)
+			if !ok {
+				fc.abort("store: field is %T, expected scalar", x)
+			}
+			put(l.key, sc.T)
+			continue
+		}
+		sl, ok := x.(SliceV)
+		if !ok {
+			fc.abort("store: field is %T, expected slice", x)
+		}
+		put(ls[i].key, sl.Ref)
+		put(ls[i+1].key, sl.Off)
+		put(ls[i+2].key, sl.Len)
+		put(ls[i+3].key, sl.Cap)
+		i += 3
+	}
+}
